@@ -148,7 +148,7 @@ def run(run):
         run.sample({x: cases[k][x] for x in ('e', 'has2', 'info', 'expr', 'ok', 'k', 'name', 'answer')})
         # ---- metadata-only scanning: declared extents, damaged data invisible
         res = stream.tlc_run(wd, 'MC_c17_stream', maxmsgs=2, pool=(1, 2, 3, 4), seps=(1, 3), faults=('stop', 'undef_elem', 'undef_seq', 'grow4'),
-                             modes='{[info |-> TRUE, cont |-> c, filt |-> f] : c \\in BOOLEAN, f \\in BOOLEAN}')
+                             modes='{[info |-> TRUE, cont |-> c, filt |-> f, ive |-> FALSE] : c \\in BOOLEAN, f \\in BOOLEAN}')
         if res.violated:
             run.violation(('spec', res.violated, 'Stream'), 'Stream invariant violated', tlc.error_trace(res))
         run.add_tlc(res, 'Stream, metadata-only mode, faults invisible to it')
